@@ -128,7 +128,9 @@ def directive_decode_task(ck, task):
         elif mods:
             ck.refuted("G-REFUSE", fn, cons, f"the size check uses modulus {sorted(mods)} instead of {w2}: an odd number of offset fields passes and the pair loop reads a short field (struct.error)")
         else:
-            ck.unknown("G-REFUSE", fn, cons, "no modulus check found among the refusals")
+            # written without a modulus (e.g. divmod / a counted loop): the hazard itself - a field read from a short slice
+            # inside the pair loop - is what X-BUF decides for the peeled first iteration; nothing more to claim here
+            ck.assume("G-REFUSE", fn, cons, "no modulus check among the refusals of NakPdu.unpack; left to the in-bounds proofs of the pair loop")
     # the mandatory parameters lie before the end of the parameter area (declared length minus CRC trailer)
     need = H + 1 + min_params_len(kind.name, large) + (2 if crc else 0)
     # ... and conversely a too-short refusal of the PDU decoder itself (not of the TLV/LV decoders it calls for optional
